@@ -317,9 +317,7 @@ def _loop_closes_all(ctx, unit: Unit, cfg: CFG, siter: Node, src: str, elements_
             if n.kind == "branch" and lab == no_aclose_edge(ctx, unit, n):
                 continue
             if not s.in_region("loop", loop):
-                if s is head:
-                    return False
-                continue  # break out of the loop: treated as leaving without closing
+                return False  # leaves the loop (``break``) before this element was closed: the rest stays open
             work.append(s)
     return True
 
@@ -674,16 +672,21 @@ def _is_transfer_await(ctx, unit: Unit, n: Node, src: str) -> bool:
         if target is None or target.kind != "coroutine":
             continue
         params = target.params()[skip:] if f[0] == "bound" else target.params()
+        def handed_over(a) -> bool:
+            # the callee closes what it is given: the iterator itself - not a generator expression / comprehension over it
+            # (closing such a wrapper leaves what it iterates open, which is what ``borrow`` relies on)
+            if isinstance(a, (ast.GeneratorExp, ast.ListComp, ast.SetComp, ast.DictComp)):
+                return False
+            return _expr_mentions(ctx, unit, a, n, src)
+
         for i, a in enumerate(call.args):
             if isinstance(a, ast.Starred):
                 continue
-            if i < len(params) and "ITERABLE" in roles_of_annotation(params[i].annotation) \
-                    and _expr_mentions(ctx, unit, a, n, src):
+            if i < len(params) and "ITERABLE" in roles_of_annotation(params[i].annotation) and handed_over(a):
                 return True
         for kw in call.keywords:
             for p in params:
-                if p.arg == kw.arg and "ITERABLE" in roles_of_annotation(p.annotation) \
-                        and _expr_mentions(ctx, unit, kw.value, n, src):
+                if p.arg == kw.arg and "ITERABLE" in roles_of_annotation(p.annotation) and handed_over(kw.value):
                     return True
     return False
 
